@@ -59,7 +59,11 @@ static std::string CheckSort(const CGraph& g, const std::set<int>& nodes, const 
 
 static void Replay(const json& c, vh::Report& r) {
   Driver d;
-  for (auto& op : c["hist"]) d.Apply(op);
+  // every query is also issued between the calls (a user looks at the graph while editing it): whatever the graph keeps from
+  // an earlier answer must not show in a later one.  Even-numbered cases do it, odd ones query only at the end.
+  const bool between = (r.cases % 2) == 0;
+  for (auto& op : c["hist"]) { d.Apply(op);
+    if (between) { (void)d.g.TopologicalOrder(); (void)d.g.InverseTopologicalOrder(); (void)d.g.GetAllLoopsItems(); (void)d.g.HasLoop(); (void)d.g.ConnectionsCount(); (void)d.g.ItemsCount(); } }
   const auto& g = d.g;
   const auto& obs = c["obs"];
   std::string why; json detail;
